@@ -416,7 +416,8 @@ func writeYields(list []ast.Stmt, tf *token.File, patches *[]patch, yieldID *int
 			continue
 		}
 		*yieldID++
-		*patches = append(*patches, patch{off: tf.Offset(st.Pos()), text: fmt.Sprintf("simrt.Yield(%d);", *yieldID)})
+		// the top bit marks "about to write non-local memory" for the scheduler
+		*patches = append(*patches, patch{off: tf.Offset(st.Pos()), text: fmt.Sprintf("simrt.Yield(%d|simrt.WriteSite);", *yieldID)})
 		out.Yields = append(out.Yields, site{ID: *yieldID, Kind: "write", Pos: posOf(st.Pos()), Func: curFunc()})
 		out.WriteYields++
 		*usesSimrt = true
